@@ -331,7 +331,10 @@ def instrumented(f):
     ast.fix_missing_locations(tree)
     ns = module_ns(f)
     local = {}
-    exec(compile(tree, f"<sx:{f.__module__}.{f.__qualname__}>", 'exec'), ns, local)
+    # a module loaded by harness.common.optimized_copy stands for the library as `python -O` runs it: assert statements
+    # are compiled away (the instrumenter leaves them as Assert nodes), __debug__ is False
+    opt = 1 if f.__globals__.get('__sx_optimize__') else -1
+    exec(compile(tree, f"<sx:{f.__module__}.{f.__qualname__}>", 'exec', optimize=opt), ns, local)
     try:
         cells = [c.cell_contents for v, c in zip(co.co_freevars, f.__closure__ or ()) if v != '__class__']
     except ValueError:
@@ -377,3 +380,25 @@ def reset():
     _cache.clear()
     INSTRUMENTED_LOG.clear()
     FAILED.clear()
+
+
+_OPT_COPIES = {}
+
+
+def optimized_copy(mod):
+    """The module as `python -O` / PYTHONOPTIMIZE=1 would load it (assert statements compiled away, __debug__ False),
+    built from the current source file.  Registered as <name>__O so that the instrumenter treats it as library code
+    and keeps its globals apart from the regular module's."""
+    import sys, types
+    key = mod.__name__
+    m = _OPT_COPIES.get(key)
+    if m is None:
+        src = open(mod.__file__, encoding="utf-8").read()
+        m = types.ModuleType(mod.__name__ + "__O")
+        m.__file__ = mod.__file__
+        m.__package__ = mod.__package__
+        m.__dict__['__sx_optimize__'] = 1
+        sys.modules[m.__name__] = m
+        exec(compile(src, mod.__file__, 'exec', optimize=1), m.__dict__)
+        _OPT_COPIES[key] = m
+    return m
